@@ -198,7 +198,9 @@ pub fn stat_add(name: &'static str, n: u64) {
 }
 
 /// Record a violation (the first one wins) and ask the run to stop.
-pub fn violation(property: &str, oracle: &str, signature: impl Into<String>, detail: impl Into<String>) {
+/// Returns `false` if the violation is a listed known finding (recorded as
+/// such; the run continues).
+pub fn violation(property: &str, oracle: &str, signature: impl Into<String>, detail: impl Into<String>) -> bool {
     let v = Violation {
         property: property.to_string(),
         oracle: oracle.to_string(),
@@ -207,13 +209,14 @@ pub fn violation(property: &str, oracle: &str, signature: impl Into<String>, det
     };
     if super::findings::is_known(&v) {
         known(v);
-        return;
+        return false;
     }
     try_with(|s| {
         if s.violation.is_none() {
             s.violation = Some(v);
         }
     });
+    true
 }
 
 /// Record an occurrence of a listed known finding; the run continues.
